@@ -362,7 +362,7 @@ def generate(ctx):
     yield "plan", {"size": 0, "bs": 0}
     yield "plan", {"size": 5, "bs": 0}
     yield "plan", {"size": 0, "bs": 7}
-    smax, bmax = (400, 80) if th else (120, 40)
+    smax, bmax = (400, 80) if th else (90, 30)
     for size in range(1, smax + 1):
         for bs in range(1, bmax + 1):
             yield "plan", {"size": size, "bs": bs}
